@@ -150,9 +150,11 @@ func (m *c11Model) keysIn(cf string, s, e []byte) [][]byte {
 	return out
 }
 
-func (m *c11Model) dump(cf string) map[string]string {
+func (m *c11Model) dump(cf string) map[string]string { return c11DumpMap(m.cfs[cf]) }
+
+func c11DumpMap(kv map[string][]byte) map[string]string {
 	out := map[string]string{}
-	for k, v := range m.cfs[cf] {
+	for k, v := range kv {
 		if len(v) > 32 {
 			out[c11q([]byte(k))] = fmt.Sprintf("%q...(%d bytes)", v[:32], len(v))
 			continue
@@ -511,8 +513,8 @@ func (h *c11RPC) disarm() c11CallObs {
 	return o
 }
 
-func (h *c11RPC) Close() error                                        { return nil }
-func (h *c11RPC) CloseAddr(addr string) error                         { return nil }
+func (h *c11RPC) Close() error                                         { return nil }
+func (h *c11RPC) CloseAddr(addr string) error                          { return nil }
 func (h *c11RPC) SetEventListener(listener client.ClientEventListener) {}
 
 func (h *c11RPC) SendRequestAsync(ctx context.Context, addr string, req *tikvrpc.Request, cb async.Callback[*tikvrpc.Response]) {
